@@ -10,6 +10,18 @@ from .values import (BoundMethod, Closure, Fn, FuncRef, ModRef, Obj, Opaque, Opt
                      fresh, fresh_name, is_sym, realval, sort_of)
 
 
+NOT_EXCEPTION = {"KeyboardInterrupt", "SystemExit", "GeneratorExit"}
+
+
+def builtin_ancestors(name):
+    """name and its base classes, for built-in exception classes (CPython's hierarchy); unknown names have no known bases"""
+    import builtins
+    c = getattr(builtins, name, None)
+    if isinstance(c, type) and issubclass(c, BaseException):
+        return {k.__name__ for k in c.__mro__}
+    return {name}
+
+
 class StmtMixin:
     def exec_block(self, stmts, st, fr):
         for s in stmts:
@@ -191,7 +203,15 @@ class StmtMixin:
         e = s.exc
         name = None
         if isinstance(e, ast.Call) and isinstance(e.func, ast.Name) and hasattr(st.locals.get(e.func.id), "exc_name"):
-            return (RAISE, (st.locals[e.func.id].exc_name, "", s.lineno))      # raise exctype(value) with a symbolic type
+            t = st.locals[e.func.id]
+            if hasattr(t, "construct"):                                         # modelled exception class: constructing it may itself fail
+                inst = t.construct(self, st, [self.ev(a, st, fr) for a in e.args])
+                return (RAISE, (inst.exc_name, "", s.lineno))
+            return (RAISE, (t.exc_name, "", s.lineno))      # raise exctype(value) with a symbolic type
+        if isinstance(e, (ast.Name, ast.IfExp)):
+            v = self.ev(e, st, fr)
+            if hasattr(v, "exc_name"):                                          # raise <exception instance>
+                return (RAISE, (v.exc_name, "", s.lineno))
         if isinstance(e, ast.Call):
             name = ast.unparse(e.func)
         else:
@@ -238,7 +258,7 @@ class StmtMixin:
                     names = [ast.unparse(e).split(".")[-1] for e in h.type.elts]
                 else:
                     names = [ast.unparse(h.type).split(".")[-1]]
-                if names is None or exc in names or "Exception" in names or "BaseException" in names:
+                if names is None or "BaseException" in names or ("Exception" in names and exc not in NOT_EXCEPTION) or any(n in builtin_ancestors(exc) for n in names):
                     if h.name:
                         st.locals[h.name] = Opaque("exc:" + exc)
                     r = self.exec_block(h.body, st, fr)
